@@ -228,8 +228,38 @@ def _ts(s):
         return None
 
 
+def run_concrete(case: dict) -> dict:
+    """a shipped command end to end: `discover doip` against a closed local port, with a database"""
+    from gallia.commands.discover.doip import DoIPDiscoverer, DoIPDiscovererConfig
+
+    root = Path(tempfile.mkdtemp(prefix="c15-", dir=os.environ.get("C15_TMP", "/var/tmp")))
+    obs: dict = {}
+    try:
+        cfg = DoIPDiscovererConfig(db=root / "g.sqlite", artifacts_base=root / "art", target="doip://127.0.0.1:1", start=1, stop=1)
+        cmd = DoIPDiscoverer(cfg)
+        try:
+            rc = asyncio.run(asyncio.wait_for(cmd.entry_point(), 30))
+            obs["exit"] = f"ret:{rc}"
+        except BaseException as e:  # noqa
+            obs["exit"] = "raise:" + type(e).__name__
+        con = sqlite3.connect(root / "g.sqlite")
+        rows = con.execute("SELECT exit_code, end_time FROM run_meta").fetchall()
+        con.close()
+        obs["db"] = [list(r) for r in rows]
+        metas = list(root.glob("art/*/run-*/META.json"))
+        obs["meta"] = json.loads(metas[0].read_text())["exit_code"] if metas else None
+        obs["db_closed"] = cmd.db_handler is None or cmd.db_handler.connection is None
+    except BaseException:  # noqa
+        obs["harness_error"] = traceback.format_exc()[-1500:]
+    finally:
+        shutil.rmtree(root, ignore_errors=True)
+    return obs
+
+
 def run_case(case: dict) -> dict:
     """returns the canonical observation of one run"""
+    if case.get("kind") == "concrete:discover-doip":
+        return run_concrete(case)
     G = _G
     Env, cap, added = G["Env"], G["cap"], G["added"]
     root = Path(tempfile.mkdtemp(prefix="c15-", dir=os.environ.get("C15_TMP", "/var/tmp")))
